@@ -11,7 +11,9 @@ def check(ctx, rep):
         "wait, or its path condition contains the fold-classified fact `for all r in job.required: "
         "r.is_done()` for the very job being started. R01.3 truth table of is_done over the task "
         "life-cycle domain: true exactly on finished tasks (returned or raised). R01.4 the body is awaited "
-        "inside its own task; the nested form returns only after the awaited inherited run.")
+        "inside its own task; the nested form returns only after the awaited inherited run. R01.5 `done` speaks "
+        "about this run: the task registry of every member (nested schedulers included) is reset before the "
+        "first start and written only by the start path.")
     rep.declined = ["asyncio's own semantics (T1-T3)"]
     rep.trusted = ["T1 asyncio.wait partitions its argument", "T2 create_task does not run the coroutine synchronously",
                    "T5 Task._state/_exception/_result meaning", "T8 Python MRO and short-circuit semantics"]
@@ -19,3 +21,4 @@ def check(ctx, rep):
     runrules.guarded_start(ctx, rep, "R01.2")
     predicates.is_done_table(ctx, rep, "R01.3")
     common.nested_awaits_run(ctx, rep, "R01.4")
+    predicates.writers_monotone(ctx, rep, "R01.5")
